@@ -78,7 +78,7 @@ func init() {
 			st.Record(c, nt, l)
 			st.Count("zone_skipped_invokes", v.ZoneSkips)
 			return failFrom(v.First(append(commonClauses,
-				CProvSingle, CFromNowhere, CZeroAvailable, CZeroRequired, CGroupForeign, CInvokedOnce, CUnregisteredRan, CBadExec, CPoisoned, CRootCause)...))
+				CProvSingle, CFromNowhere, CZeroAvailable, CZeroRequired, CGroupForeign, CInvokedOnce, CUnregisteredRan, CBadExec, CPoisoned, CRootCause, CZeroBehindBrokenDeco)...))
 		},
 	})
 }
